@@ -12,7 +12,7 @@ import (
 )
 
 // leaf keys of the pool in dependency order: a value may only mention later keys (acyclic)
-var c19Pool = []string{"a", "b", "c.d", "e", "f.g"}
+var c19Pool = []string{"l[0].u", "a", "b", "c.d", "e", "f.g"}
 
 func c19Value(r *rand.Rand, idx int) any {
 	later := c19Pool[idx+1:]
@@ -41,6 +41,9 @@ func c19Value(r *rand.Rand, idx int) any {
 	case 0:
 		return r.Intn(5)
 	case 1:
+		if r.Intn(3) == 0 { // a key defined as the empty string is defined
+			return ""
+		}
 		return "plain"
 	case 2:
 		return r.Intn(2) == 0
@@ -67,6 +70,13 @@ func c19Layer(r *rand.Rand) map[string]any {
 			continue
 		}
 		paddAt(m, parsePPath(k), c19Value(r, i))
+	}
+	// layers may disagree about the kind of a node: a scalar where another layer has a mapping, and the reverse
+	switch r.Intn(10) {
+	case 0:
+		m["c"] = []any{"scalar-over-mapping", "${e}"}[r.Intn(2)]
+	case 1: // (a key nobody mentions: a mention of a mapping is outside the resolver's contract)
+		m["l"] = []any{map[string]any{"u": map[string]any{"sub": "${f.g}", "n": 1}}}
 	}
 	return m
 }
@@ -299,7 +309,7 @@ func c19Impact(r *rand.Rand) Case {
 func init() {
 	register(&Prop{
 		ID:   "C19",
-		Rule: "overlays of 1-3 layers over a pool of 5 leaf keys (a, b, c.d, e, f.g); string values are templates mentioning later pool keys (acyclic), unknown keys, defaults, repeated mentions, unterminated placeholders, defaults containing placeholders, look-alike keys and default forms before a plain mention, adjacent placeholders (unknown first), placeholder-like noise, a closing brace before the first placeholder; resolvers built from builders that are re-configured afterwards; impact analysis also through a document set changed between two calls on one analysis object; plus ints/bools/plain strings. kinds: dependency (source + 0-2 reference overlays; 20 repeated runs must give equal reports; AllKeys = OrphanKeys ⊎ keys(Map)), placeholder (key filters: all / prefix c / not a; 20 repeated runs), impact (requested key subsets incl. an unknown key). Sorted fields compared exactly, coordinate lists as multisets. Non-trivial: some value mentions >= 2 keys. Distinct by Gallina term.",
+		Rule: "overlays of 1-3 layers over a pool of 5 leaf keys (a, b, c.d, e, f.g); string values are templates mentioning later pool keys (acyclic), unknown keys, defaults, repeated mentions, unterminated placeholders, defaults containing placeholders, look-alike keys and default forms before a plain mention, adjacent placeholders (unknown first), placeholder-like noise, a closing brace before the first placeholder; resolvers built from builders that are re-configured afterwards; impact analysis also through a document set changed between two calls on one analysis object; plus ints/bools/plain strings. kinds: dependency (source + 0-2 reference overlays; 20 repeated runs must give equal reports; AllKeys = OrphanKeys ⊎ keys(Map)), placeholder (key filters: all / prefix c / not a; 20 repeated runs), impact (requested key subsets incl. an unknown key). Sorted fields compared exactly, coordinate lists as multisets. Non-trivial: some value mentions >= 2 keys. Distinct by Gallina term. Keys defined as the empty string, a key below a mapping inside a list, layers that disagree about the kind of a node.",
 		Gen: func(r *rand.Rand, tier string, idx int) Case {
 			switch idx % 3 {
 			case 0:
